@@ -272,6 +272,13 @@ mod xcpu {
     static PENDING: AtomicBool = AtomicBool::new(false);
     static ARMED: AtomicBool = AtomicBool::new(false);
     static OUT_FD: AtomicI32 = AtomicI32::new(-1);
+    /// allocations since the current call started (see `call_begins`): one search that never ends
+    /// allocates next to nothing, a parser that re-parses for ever allocates all the time
+    pub static ALLOCS: std::sync::atomic::AtomicU64 = std::sync::atomic::AtomicU64::new(0);
+
+    pub fn call_begins() {
+        ALLOCS.store(0, Ordering::Relaxed);
+    }
 
     pub struct TrackAlloc;
 
@@ -286,6 +293,7 @@ mod xcpu {
     unsafe impl GlobalAlloc for TrackAlloc {
         unsafe fn alloc(&self, l: Layout) -> *mut u8 {
             IN_ALLOC.store(true, Ordering::Relaxed);
+            ALLOCS.fetch_add(1, Ordering::Relaxed);
             let p = System.alloc(l);
             leave();
             p
@@ -346,7 +354,7 @@ mod xcpu {
                 in_rexile = true;
             }
         }
-        let msg = format!("\nX {}\t{}\n", frame, if in_rexile { 1 } else { 0 });
+        let msg = format!("\nX {}\t{}\t{}\n", frame, if in_rexile { 1 } else { 0 }, ALLOCS.load(Ordering::Relaxed));
         unsafe {
             let fd = OUT_FD.load(Ordering::SeqCst);
             libc::write(fd, msg.as_ptr() as *const libc::c_void, msg.len());
@@ -430,6 +438,7 @@ fn worker_run(first_pass_s: u64) -> i32 {
                 set_soft_cpu_limit(cpu_now_s().ceil() as u64 + first_pass_s);
             }
             pending.push_str(&format!("S {} {}", i, e));
+            xcpu::call_begins();
             quiet::out(&pending);
             pending.clear();
             let t0 = cpu_now_s();
@@ -589,6 +598,8 @@ struct DeathRec {
     wall_killed: bool,
     /// reported by the worker's SIGXCPU handler: (innermost crate frame, time was inside rexile)
     site: Option<(String, bool)>,
+    /// allocations the call had made when the CPU limit fired
+    allocs: Option<u64>,
 }
 
 impl DeathRec {
@@ -603,10 +614,11 @@ impl DeathRec {
     }
     fn describe(&self) -> String {
         format!(
-            "signal={:?} exit={:?} child_cpu_s={:.1} stack-overflow-message={} allocation-failure-message={} at-kill={}",
+            "signal={:?} exit={:?} child_cpu_s={:.1} allocations-during-the-call={:?} stack-overflow-message={} allocation-failure-message={} at-kill={}",
             self.signal,
             self.exit,
             self.child_cpu_s,
+            self.allocs,
             self.overflow_msg,
             self.alloc_msg,
             match &self.site {
@@ -692,6 +704,7 @@ fn run_batch(
         let mut finished = false;
         let mut tail = String::new(); // runtime messages after the last S line
         let mut site: Option<(String, bool)> = None;
+        let mut site_allocs: Option<u64> = None;
         let mut progressed = false;
         for line in text.lines() {
             let mut it = line.splitn(4, ' ');
@@ -749,7 +762,9 @@ fn run_batch(
                 Some("X") => {
                     let rest = line[1..].trim_start();
                     let (f, r) = rest.split_once('\t').unwrap_or((rest, "0"));
+                    let (r, a) = r.split_once('\t').unwrap_or((r, ""));
                     site = Some((f.trim().to_string(), r.trim() == "1"));
+                    site_allocs = a.trim().parse::<u64>().ok();
                 }
                 _ => {
                     if tail.len() < 2000 {
@@ -781,6 +796,7 @@ fn run_batch(
                         alloc_msg: tail.contains("memory allocation of"),
                         wall_killed: out.wall_killed,
                         site: site.clone(),
+                        allocs: site_allocs,
                     }),
                     cpu_us: 0,
                 });
@@ -1113,6 +1129,7 @@ fn long_condition_cut(input: &str) -> Option<String> {
 }
 
 const REXILE_CAUSE: &str = "stuck-in-rexile-regex-engine";
+const REXILE_MIN_LEN: usize = 2_500;
 
 /// Why is this pair slow / fatal? For CPU kills the worker says where it was: inside the rexile
 /// regex engine (one root cause: its matcher is super-linear, ~n^3.5 measured, on the crate's
@@ -1123,7 +1140,22 @@ fn explain(bin: &Bin, input: &str, e: usize, d: &DeathRec, bs: &mut BatchStats) 
     if d.cpu_limit_hit() {
         if let Some((frame, in_rexile)) = &d.site {
             if *in_rexile {
-                return REXILE_CAUSE.to_string();
+                // the known super-linear search (~n^3.5) needs the whole 4 KiB to pass 120 CPU-s
+                // (a 2.5 KiB input stays below a fifth of that): a SHORT input that is stuck there
+                // got there some other way (e.g. by calling the matcher exponentially often)
+                if input.len() >= REXILE_MIN_LEN {
+                    return REXILE_CAUSE.to_string();
+                }
+                // a short input can still hand the matcher one long unsplittable stretch again and
+                // again: nested groups joined by the WORDS `AND` / `OR`, which the rule grammar does
+                // not split at. Counterfactual: the same text with `&&` / `||` in their place
+                if input.contains(" AND ") || input.contains(" OR ") {
+                    let cf = input.replace(" AND ", " && ").replace(" OR ", " || ");
+                    if returns_quickly(bin, &cf, e, bs) {
+                        return format!("{}:nested-groups-joined-by-word-operators", REXILE_CAUSE);
+                    }
+                }
+                return format!("{}:on-an-input-below-{}-bytes", REXILE_CAUSE, REXILE_MIN_LEN);
             }
             if !frame.is_empty() {
                 let f = frame.strip_prefix("rust_rule_engine::").unwrap_or(frame);
